@@ -178,7 +178,7 @@ package stdlib
 //@   assert at "ret := make([]byte, 0, 20)" : val >= MinInt64 + *bucketSize && start <= MaxInt64 - *bucketSize + 1 ==> end == start + *bucketSize - 1 && val <= end
 
 // the integer argument parser of the arithmetic helpers: plain base-10 integers
-//@ func init$2 at "typedParserInt = func(s string) (int, bool) {"
+//@ func init$parseint at "typedParserInt = func(s string) (int, bool) {"
 //@   ensures result1 == int_ok(s)
 //@   ensures result1 ==> result0 == atoi(s)
 
@@ -217,3 +217,36 @@ package stdlib
 //@   ensures [quote] str_contains_any(s, "\"\r\n") ==> result == "\"" + str_replace_all(s, "\"", "\"\"") + "\""
 //@   ensures [comma] !str_contains_any(s, "\"\r\n") && str_contains(s, ",") ==> result == "\"" + s + "\""
 //@   ensures [plain] !str_contains_any(s, "\"\r\n") && !str_contains(s, ",") ==> result == s
+
+// ---- C18: which calendar quantity each time attribute uses ----
+// iso_year / iso_week / cal_year / wk_day are what package time reports for an instant (assumed);
+// the helpers must combine the right ones: yearweek pairs the ISO week with the ISO week-year.
+//@ smt
+//@ (declare-fun iso_year (Int Int Int) Int)
+//@ (declare-fun iso_week (Int Int Int) Int)
+//@ (declare-fun cal_year (Int Int Int) Int)
+//@ (declare-fun wk_day (Int Int Int) Int)
+//@ end
+//@ extern time.(Time).ISOWeek
+//@   params (t)
+//@   results (year, week)
+//@   pure
+//@   ensures year == iso_year(t) && week == iso_week(t) && 1 <= week && week <= 53
+//@ extern time.(Time).Year
+//@   params (t)
+//@   pure
+//@   ensures result == cal_year(t)
+//@ extern time.(Time).Weekday
+//@   params (t)
+//@   pure
+//@   ensures result == wk_day(t) && 0 <= result && result <= 6
+//@ func init$weekday at "func(t time.Time) string { return strconv.Itoa(int(t.Weekday())) }"
+//@   ensures result == itoa(wk_day(t))
+//@ func init$week at "_, week := t.ISOWeek()"
+//@   ensures result == itoa(iso_week(t))
+//@ func init$yearweek at "return strconv.Itoa(year) + \"-\" + strconv.Itoa(week)"
+//@   ensures result == itoa(iso_year(t)) + "-" + itoa(iso_week(t))
+
+// durationformat reads its argument as a plain base-10 integer number of seconds
+//@ func kfDurationFormat$1
+//@   ensures !int_ok(app((*args)[0], context)) ==> result == "<BAD-TYPE>"
